@@ -276,6 +276,13 @@ func (f *Frame) havocAll(h *Heap) *Heap {
 		if n == allocComp {
 			continue
 		}
+		if strings.HasPrefix(n, "L!") {
+			// non-escaping locals are not reachable by callees
+			if t, ok := h.comps[n]; ok {
+				nh.comps[n] = t
+			}
+			continue
+		}
 		nh.comps[n] = vc.Fresh(fmt.Sprintf("hv%d.%s", vc.epoch, n), s)
 	}
 	na := vc.Fresh("alloc", SInt)
@@ -860,7 +867,7 @@ func (f *Frame) seqOperand(v ssa.Value, st State) (n Term, at func(i Term) Term,
 		es = f.w.Sorts.SortOf(u.Elem())
 		m := st.Heap.Comp(memComp(es), memSort(es))
 		arr := f.vc.Define("srcarr", Sel(m, SArr(x)))
-		return SLen(x), func(i Term) Term { return Sel(arr, Add(SOff(x), i)) }, es
+		return SLen(x), func(i Term) Term { return f.w.Sorts.Elt(arr, SOff(x), i) }, es
 	case *types.Basic:
 		return StrLen(x), func(i Term) Term { return StrAt(x, i) }, SInt
 	}
